@@ -237,6 +237,25 @@ def raise_value_error(msg):
   raise ValueError(msg)
 
 
+def raise_timeout_error(msg):
+  """The application's own TimeoutError (not a transport deadline)."""
+  _count('raise_timeout_error')
+  raise TimeoutError(msg)
+
+
+GATES = {}      # gate id -> (started: threading.Event, release: threading.Event)
+
+
+def gated_raise(gate, kind, msg):
+  """Signals that it runs, waits until the harness releases it, then raises (or returns msg for kind == 'value')."""
+  started, release = GATES[gate]
+  started.set()
+  release.wait(20)
+  if kind == 'value':
+    return msg
+  raise {'ValueError': ValueError, 'RuntimeError': RuntimeError, 'KeyError': KeyError}[kind](msg)
+
+
 def raise_key_error(msg):
   _count('raise_key_error')
   raise KeyError(msg)
